@@ -1,6 +1,7 @@
 (* C09 — property theorems only.  Each is closed by `exact` of a lemma of C09_Proofs*.v. *)
 From Coq Require Import List NArith ZArith Bool.
-From Dae Require Import C09_Spec C09_Model C09_Check C09_ProofsF C09_ProofsP C09_Proofs C09_ProofsC C09_ProofsW C09_ProofsK.
+From Dae Require Import C09_Spec C09_Model C09_Check C09_ProofsF C09_ProofsP C09_Proofs C09_ProofsC C09_ProofsW C09_ProofsK C09_ProofsS.
+From Dae.gen Require Import C09_Route.
 Import ListNotations.
 Open Scope N_scope.
 
@@ -100,6 +101,33 @@ Theorem C09_waiter_reply_shared_refuted :
     nth_error (w_ws (wrun false m0 ids sched)) i = Some (id, WDone o p) /\ m_id p <> id.
 Proof. exact C09_waiter_reply_shared_refuted_proof. Qed.
 Print Assumptions C09_waiter_reply_shared_refuted.
+
+(* One singleflight flight with clients of mixed kinds (transparent-UDP clients answered by datagrams,
+   listener / TCP clients answered through a response writer), any leader, any number of waiters, any
+   upstream behaviour, and every history of the cache - in particular an earlier flight publishing the
+   answer between the leader's outer miss and the shared resolution's own lookup: the shared resolution,
+   which is given the internal capturer, writes the answer to the capturer and to nothing else, so the
+   leader and every waiter receive exactly one reply, under their own ID, with their own question, carrying
+   the shared result (the answer when there is one, SERVFAIL only when there is none).  The routing
+   conditions of writeCachedResponse are the terms generated from the source (gen/C09_Route.v). *)
+Theorem C09_flight_result_reaches_every_waiter :
+  forall p L Ws pb up,
+    let k := key_of (cq_q (fc_q L)) in
+    forallb (participant k) (L :: Ws) = true -> pub_good k pb = true -> fres_tagged up = true ->
+    flight_ok wcr_writer_cond wcr_noconn_cond p L Ws pb up = true.
+Proof. exact C09_flight_result_reaches_every_waiter_proof. Qed.
+Print Assumptions C09_flight_result_reaches_every_waiter.
+
+(* With the routing condition "writer present AND no lConn" the statement is refutable: a UDP leader whose
+   shared resolution hits the cache gets the datagram itself, the capturer stays empty, every waiter gets
+   SERVFAIL and the leader a second reply. *)
+Theorem C09_flight_seeded_route_refuted :
+  exists p L Ws pb up,
+    forallb (participant (key_of (cq_q (fc_q L)))) (L :: Ws) = true /\
+    pub_good (key_of (cq_q (fc_q L))) pb = true /\ fres_tagged up = true /\
+    flight_ok seeded_writer_cond wcr_noconn_cond p L Ws pb up = false.
+Proof. exact C09_flight_seeded_route_refuted_proof. Qed.
+Print Assumptions C09_flight_seeded_route_refuted.
 
 (* ---- forwarder lifecycle (cachedDnsForwarder) ------------------------------------------------ *)
 
